@@ -136,14 +136,46 @@ class RandomShim:
     __symx_model__ = True
 
     @staticmethod
+    def _name(kind):
+        """draw names are numbered by their own counter (not Ctx.fresh): symbolic and native runs then agree on them
+        even when other models (hash stubs ...) create fresh names in one mode only"""
+        ctx = Ctx.cur
+        n = ctx.__dict__.get("rand_names", 0) + 1
+        ctx.__dict__["rand_names"] = n
+        return "%s!r%d" % (kind, n)
+
+    @staticmethod
+    def _draw(kind, params, v):
+        """after seed(s) the generator is a function of (s, draw number, kind of draw): equal seeds give equal draws —
+        nothing else is assumed. Every drawing method consumes one draw number."""
+        ctx = Ctx.cur
+        st = getattr(ctx, "rand_state", None)
+        if st is None or is_native():
+            return v
+        seed, n = st
+        ctx.rand_state = (seed, n + 1)
+        apps = ctx.__dict__.setdefault("rand_apps", [])
+        for seed2, n2, kind2, params2, v2 in apps:
+            if n2 == n and kind2 == kind and params2 == params:
+                same = tobool_expr(compare("==", seed, seed2))
+                eq = tobool_expr(deep_eq(v, v2))
+                eq = z3.BoolVal(eq) if isinstance(eq, bool) else eq
+                if same is True:
+                    ctx.add_c(eq)
+                elif same is not False:
+                    ctx.add_c(z3.Implies(same, eq))
+        apps.append((seed, n, kind, params, v))
+        return v
+
+    @staticmethod
     def getrandbits(k):
         k = concretize(k)
-        v = sym_int(Ctx.cur.fresh("rand%d" % k), 0, (1 << k) - 1)
-        Ctx.cur.notes  # noqa: B018
-        if not hasattr(Ctx.cur, "draws"):
-            Ctx.cur.draws = []
-        Ctx.cur.draws.append(v)
-        return v
+        ctx = Ctx.cur
+        v = sym_int(RandomShim._name("rand%d" % k), 0, (1 << k) - 1)
+        if not hasattr(ctx, "draws"):
+            ctx.draws = []
+        ctx.draws.append(v)
+        return RandomShim._draw("getrandbits", k, v)
 
     @staticmethod
     def randrange(a, b=None, step=1):
@@ -154,7 +186,7 @@ class RandomShim:
             raise Unsupported("randrange step")
         if b <= a:
             raise ValueError("empty range for randrange()")
-        return sym_int(Ctx.cur.fresh("randrange"), a, b - 1)
+        return RandomShim._draw("randrange", (a, b), sym_int(RandomShim._name("randrange"), a, b - 1))
 
     @staticmethod
     def randint(a, b):
@@ -168,8 +200,8 @@ class RandomShim:
             raise IndexError("Cannot choose from an empty sequence")
         if isinstance(seq, (str, bytes)) and not is_native():
             # one symbolic cell constrained to the alphabet (no fork per element)
-            name = Ctx.cur.fresh("choice")
-            idx = sym_int(name, 0, n - 1)
+            name = RandomShim._name("choice")
+            idx = RandomShim._draw("choice", n, sym_int(name, 0, n - 1))
             if isinstance(idx, int):
                 return seq[idx] if isinstance(seq, str) else seq[idx]
             w = 21 if isinstance(seq, str) else 8
@@ -182,15 +214,34 @@ class RandomShim:
             if isinstance(seq, str):
                 return SymStr([cell])
             return SymInt.from_byte(cell)
-        idx = sym_int(Ctx.cur.fresh("choice"), 0, n - 1)
+        idx = RandomShim._draw("choice", n, sym_int(RandomShim._name("choice"), 0, n - 1))
         return seq[concretize(idx)]
 
     @staticmethod
     def uniform(a, b):
-        raise Unsupported("random.uniform (floating point)")
+        """documented contract: a value N with a <= N <= b (or b <= N <= a). Decided over the rationals (SymReal)."""
+        r = sym_real(RandomShim._name("uniform"))
+        if is_native():
+            lo, hi = (a, b) if a <= b else (b, a)
+            return float(min(max(r, lo), hi)) if isinstance(lo, (int, float)) and isinstance(hi, (int, float)) else float(r)
+        lo_ok = SymReal.cmp("<=", a, r)
+        hi_ok = SymReal.cmp("<=", r, b)
+        fwd = z3.And(tobool_expr(lo_ok) if not isinstance(lo_ok, bool) else z3.BoolVal(lo_ok),
+                     tobool_expr(hi_ok) if not isinstance(hi_ok, bool) else z3.BoolVal(hi_ok))
+        lo2 = SymReal.cmp("<=", b, r)
+        hi2 = SymReal.cmp("<=", r, a)
+        bwd = z3.And(tobool_expr(lo2) if not isinstance(lo2, bool) else z3.BoolVal(lo2),
+                     tobool_expr(hi2) if not isinstance(hi2, bool) else z3.BoolVal(hi2))
+        Ctx.cur.assume(mkbool(z3.Or(fwd, bwd)))
+        st = getattr(Ctx.cur, "rand_state", None)
+        if st is not None:
+            Ctx.cur.rand_state = (st[0], st[1] + 1)  # consumes a draw
+        return r
 
     @staticmethod
     def seed(*a):
+        if not is_native():
+            Ctx.cur.rand_state = (a[0] if a else None, 0)
         return None
 
     @staticmethod
